@@ -31,9 +31,14 @@ def run(chk):
     def differs(req, ir):
         parts = ir.rsplit('"', 4)
         return len(parts) == 5 and parts[1] != parts[3]
-    stats.append(vcheck.corr_pass(chk, "h256", vcheck.corpus_lines("C13"), "runtype-pairs(corpus)", engine="js", oracle_filter=c13_only, nontrivial=differs))
+    _deeper = vcheck.impl_search("h256", lambda c: c.gen_js("h256", c.seed + 7777, 40000), "runtype-pairs(search)", engine="js", oracle_filter=c13_only)
+    memo = {}
+    def deeper(c, tb):
+        if "n" not in memo: memo["n"] = _deeper(c, tb)
+        return memo["n"]
+    stats.append(vcheck.corr_pass(chk, "h256", vcheck.corpus_lines("C13"), "runtype-pairs(corpus)", engine="js", oracle_filter=c13_only, nontrivial=differs, search=deeper))
     lines = chk.gen_js("h256", chk.seed, 1500 if quick else 40000)
-    stats.append(vcheck.corr_pass(chk, "h256", lines, "runtype-pairs", engine="js", oracle_filter=c13_only, nontrivial=differs))
+    stats.append(vcheck.corr_pass(chk, "h256", lines, "runtype-pairs", engine="js", oracle_filter=c13_only, nontrivial=differs, search=deeper))
     if not (ok and aok):
         found = any(not s.endswith("no-failing-input-found") for _, s in chk.violations)
         if not found:
